@@ -230,7 +230,7 @@ def feed_and_check(rig: Rig, target: str, frames: list, label: str, cuts=None, c
                 if n != 1:
                     add('sentinel-count', f"{label} on {target}: sentinel delivered {n} times (got {got!r})"[:600],
                         f'C02:sentinel-count:{target}:{label.split(":")[0]}:{n}')
-                elif got and got[-1] != s:
+                elif got and s is sent[-1] and got[-1] != s:
                     add('sentinel-not-last', f"{label} on {target}: {got!r}"[:400],
                         f'C02:sentinel-not-last:{target}:{label.split(":")[0]}')
             if len(got) > len(frames):
@@ -417,6 +417,53 @@ def run_segmentation(target: str, seq: str, two_cuts: bool, part: int, parts: in
             'samples': [{'target': target, 'stream': seq, 'cuts': 'all placements'}]}
 
 
+BIG = {
+    'server': lambda n: M.AdminMessage.Response('B' * n),
+    'peer': lambda n: M.PeerPlaceInQueueReply.Request('B' * n, 7),
+    'dist': lambda n: M.DistributedSearchRequest.Request(0x31, 'u', 5, 'q' * n),
+}
+
+
+def run_large_frames(target: str) -> dict:
+    """frames far larger than any read chunk (and one hostile large frame) followed by small ones, under several
+    segmentations: the bytes after a large frame belong to the next frame"""
+    viols, sigs = [], set()
+    rig = Rig()
+    n = 0
+    streams = set()
+    base_target = 'peer' if target == 'peer-obf' else target
+    obf = target == 'peer-obf'
+    try:
+        for size in (32768 - 9, 32768, 40000, 70000, 140000):
+            big = BIG[base_target](size)
+            bigb = big.serialize()
+            hostile = bigb[:8] + b'\xff\xff\xff\x7f' + bigb[12:]        # same length, lying string length
+            for kind, first in (('valid', (bigb, big, False)), ('hostile', (hostile, None, False))):
+                total = len(bigb) + (4 if obf else 0)
+                plans = {'one-chunk': None, 'frame-by-frame': 'frames', 'at-32768': [32768], 'mid-next': [total + 5],
+                         'every-8192': list(range(8192, total + 20, 8192)), 'tail-with-next': [total - 3]}
+                for pname, cuts in plans.items():
+                    s1 = SENTINELS[base_target](rig.n_sent)
+                    s2 = SENTINELS[base_target](rig.n_sent + 1)
+                    rig.n_sent += 2
+                    frames = [first, (s1.serialize(), s1, True), (bigb, big, False), (s2.serialize(), s2, True)]
+                    if target == 'server' and rig.cw.client.network.server_connection.state != ConnectionState.CONNECTED:
+                        rig.close()
+                        rig = Rig()
+                    n += 1
+                    streams.add(hash((size, kind, pname)))
+                    if cuts == 'frames':
+                        feed_and_check(rig, target, frames, f'large-{kind}:{size}:{pname}', cuts=None, coalesce=False,
+                                       sigs=sigs, viols=viols)
+                    else:
+                        feed_and_check(rig, target, frames, f'large-{kind}:{size}:{pname}', cuts=cuts, sigs=sigs, viols=viols)
+    finally:
+        rig.close()
+    return {'executions': n, 'violations': c01._vd(viols), 'states': 0, 'transitions': 0,
+            'outcomes': [f'L{s}' for s in streams], 'capped': False,
+            'samples': [{'target': target, 'case': 'large frames'}]}
+
+
 def run_midframe_timeout(target: str) -> dict:
     """the stream ends in the middle of a frame: the read time-out closes the connection (no hang, no crash)"""
     viols, sigs = [], set()
@@ -468,11 +515,12 @@ def scenarios(tier: str):
                             'parts': parts})
         if target != 'server':     # every ping the client sends pushes the server read time-out further
             out.append({'kind': 'midframe', 'target': target})
+        out.append({'kind': 'large', 'target': target})
     return out
 
 
 def weight(params, tier):
-    return {'classes': 5, 'seq': 3, 'cuts': 4, 'midframe': 1}[params['kind']]
+    return {'classes': 5, 'seq': 3, 'cuts': 4, 'midframe': 1, 'large': 6}[params['kind']]
 
 
 def run_scenario(params: dict, tier: str) -> dict:
@@ -482,6 +530,8 @@ def run_scenario(params: dict, tier: str) -> dict:
         return run_sequences(params['target'], params['maxlen'], set(params['first']))
     if params['kind'] == 'cuts':
         return run_segmentation(params['target'], params['seq'], params['two'], params['part'], params['parts'])
+    if params['kind'] == 'large':
+        return run_large_frames(params['target'])
     return run_midframe_timeout(params['target'])
 
 
